@@ -39,6 +39,13 @@ impl Block {
         debug_assert!(
             in_block_offset + (data.len() as u64 + PREFIX_META_SIZE as u64) <= self.limit
         );
+        #[cfg(walrus_verif)]
+        if crate::wal::verif_hooks::io_event(crate::wal::verif_hooks::IO_ENTRY_WRITE) {
+            return Err(std::io::Error::new(
+                std::io::ErrorKind::Other,
+                "injected write failure",
+            ));
+        }
 
         let new_meta = Metadata {
             read_size: data.len(),
@@ -138,6 +145,13 @@ impl Block {
         let len = size as usize;
         if len == 0 {
             return Ok(());
+        }
+        #[cfg(walrus_verif)]
+        if crate::wal::verif_hooks::io_event(crate::wal::verif_hooks::IO_ZERO_RANGE) {
+            return Err(std::io::Error::new(
+                std::io::ErrorKind::Other,
+                "injected zeroing failure",
+            ));
         }
         let zeros = vec![0u8; len];
         let file_offset = self.offset + in_block_offset;
